@@ -127,6 +127,19 @@ impl Oracle for C02 {
                             if !was_member {
                                 continue;
                             }
+                            // membership must be continuous: a client that was removed and joined
+                            // again after the message was sent starts from a fresh MLS state and
+                            // cannot open what it missed (C03: a joiner reads nothing from before
+                            // its join)
+                            let sent_at = w.history.iter().position(|r| r.step.id == m.origin.0);
+                            let rejoined_after = sent_at.map(|p| {
+                                w.history.iter().skip(p + 1).any(|r| {
+                                    r.step.node == node && r.class == "ok" && matches!(&r.step.op, Op::AcceptWelcome { w: wr } if w.w_index.get(wr).map(|i| w.welcomes[*i].g == g).unwrap_or(false))
+                                })
+                            }).unwrap_or(false);
+                            if rejoined_after {
+                                continue;
+                            }
                             let window = (w.nodes[node].cfg.max_past_epochs as usize).min(5);
                             let is_author = node == m.author;
                             let mut offered_in_window = false;
